@@ -89,6 +89,20 @@ def gen_inputs(key, r):
     if base == 'maketoeplitzCIJ':
         nn = int(r.randint(4, 9))
         return dict(n=nn, k=int(r.randint(2, 2 * nn)), s=float(r.choice([1., 1.5, 2.5])), seed=Scripted((), fallback_seed=int(r.randint(1 << 30)), max_draws=4000000))
+    if base.startswith('community_louvain:'):
+        obj = base.split(':')[1]
+        nn = n + int(r.randint(0, 3))
+        if obj == 'potts':
+            Wm = (_und(r, nn, p=float(r.choice([.3, .5, .8]))) != 0).astype(float)
+        else:
+            Wm = _und(r, nn, signed=True, p=float(r.choice([.5, .8])))
+            if not (Wm > 0).any():
+                return None
+            if r.random_sample() < .15:
+                Wm = np.abs(Wm)
+        if Wm.sum() == 0:
+            return None
+        return dict(W=Wm, gamma=float(r.choice([.8, 1., 1.3])), ci=None, B=obj, seed=Scripted((), fallback_seed=int(r.randint(1 << 30)), max_draws=200000))
     if base in ('community_louvain', 'community_louvain@ci'):
         nn = n + int(r.randint(0, 4))
         Wm = _und(r, nn, p=float(r.choice([.3, .5, .8]))) if r.random_sample() < .6 else np.abs(_dir(r, nn, p=float(r.choice([.3, .6]))))
